@@ -11,7 +11,8 @@ def parseMask (t : String) : Option Faults :=
   match t.toList.take 8 with
   | [a, b, c, d, e, x, y, z] =>
     -- the last three (exists, sign, insert) name calls the modelled operations do not make
-    let bit (ch : Char) : Option Bool := if ch == '1' then some true else if ch == '0' then some false else none
+    -- `2`: the fault fires on the first occurrence of the call only; the modelled operations make no call twice
+    let bit (ch : Char) : Option Bool := if ch == '1' || ch == '2' then some true else if ch == '0' then some false else none
     do
       let _ ← bit x; let _ ← bit y; let _ ← bit z
       pure ⟨← bit a, ← bit b, ← bit c, ← bit d, ← bit e⟩
